@@ -769,14 +769,18 @@ impl Swift {
         let output_string = self.get_codable_contents();
         let output_path = Path::new(output_folder).join("Codable.swift");
 
+        // Compare against exactly the bytes that would be written (`write_codable` appends a
+        // newline), otherwise the file is re-written - and its mtime bumped - on every run.
+        let mut contents = Vec::new();
+        self.write_codable(&mut contents, &output_string)?;
+
         if let Ok(buf) = fs::read(&output_path) {
-            if buf == output_string.as_bytes() {
+            if buf == contents {
                 return Ok(());
             }
         }
 
-        let mut w = fs::File::create(output_path)?;
-        self.write_codable(&mut w, &output_string)
+        fs::write(output_path, contents)
     }
 
     fn get_codable_contents(&self) -> String {
